@@ -370,3 +370,10 @@ pub open spec fn closures_ok<D: Fn(u32, u32) -> u32, F: Fn(u32) -> bool>(n: u32,
 
 pub open spec fn d_returns<D: Fn(u32, u32) -> u32>(delta: D, x: u32, c: u32) -> bool { exists|r: u32| call_ensures(delta, (x, c), r) }
 pub open spec fn f_returns<F: Fn(u32) -> bool>(is_final: F, x: u32) -> bool { exists|r: bool| call_ensures(is_final, (x,), r) }
+
+// ---- termination measure of refine(): (blocks that can still be created, active splitters) ----
+pub open spec fn sum_active(ls: Seq<SplitterList>) -> nat
+    decreases ls.len()
+{
+    if ls.len() == 0 { 0 } else { sum_active(ls.drop_last()) + ls.last().num_active as nat }
+}
